@@ -275,7 +275,7 @@ def run(ck: Check):
                             "frozen": tf.tolist(), "after_steps": tn.tolist()}, signature={"what": "frozen-moved"})
             else:
                 check_layer(lay, {"kind": "optimizer-after-freeze", "init": init, "optimizer": opt_name}, frozen_times=1)
-    for bad_kw, what in (({"slope": 0.0}, "slope"), ({"slope": -5.0}, "slope"), ({"slope": float("nan")}, "slope"),
+    for bad_kw, what in (({"slope": 0.0}, "slope"), ({"slope": -5.0}, "slope"), ({"slope": float("nan")}, "slope"), ({"slope": float("inf")}, "slope"), ({"slope": 1e39}, "slope"),
                          ({"init_thresholds": [1.0, float("nan"), 3.0]}, "thresholds"), ({"init_thresholds": [1.0, 2.0, float("inf")]}, "thresholds"),
                          ({"init_thresholds": [float("nan")]}, "thresholds")):
         kw = dict({"init_thresholds": [1.0, 2.0, 3.0]}, **bad_kw)
@@ -288,9 +288,10 @@ def run(ck: Check):
             continue
         with torch.no_grad():
             ths = lay.get_thresholds()
-            y = lay(torch.tensor([0.5, 1.5, 2.5, 3.5]).reshape(1, 2, 2))
+            y = lay(torch.tensor([0.5, 1.5, 2.5, 3.5, 1.0, 2.0]).reshape(1, 2, 3))
         ordered = bool(torch.isfinite(ths).all()) and bool((ths[1:] > ths[:-1]).all())
-        mono = bool(torch.isfinite(y).all()) and bool((y[:, :-1] >= y[:, 1:]).all()) and bool(((y - 0.5).abs() > 1e-3).all())
+        off = y[..., :4]                                     # the four inputs away from the thresholds
+        mono = bool(torch.isfinite(y).all()) and bool((y[:, :-1] >= y[:, 1:]).all()) and bool(((off - 0.5).abs() > 1e-3).all())
         if not (ordered and mono):
             ck.disagree("a thermometer layer was built from arguments for which no valid ordered code exists, and returns numbers",
                         dict(case, thresholds=repr(ths.tolist()), code=repr(y.flatten().tolist()[:8])),
